@@ -20,6 +20,40 @@ static void sc_loop(void) {
   loop_end();
 }
 
+/* ---- 1b. uv_default_loop(): three rounds of "get the default loop, use it, close it".  A call that
+   fails (NULL) is repeated once - the injected fault is over by then - and must then deliver a
+   working loop: a failed uv_default_loop() leaves nothing behind. ------------------------------------ */
+static int dl_fired;
+static void dl_timer_cb(uv_timer_t* t) { (void) t; dl_fired++; }
+static void sc_default_loop(void) {
+  int round, rc;
+  for (round = 0; round < 3; round++) {
+    uv_loop_t* dl; static uv_timer_t dt;
+    fi_api = "default_loop";
+    dl = uv_default_loop();
+    fi_api = "-";
+    ev("default_loop=%s", dl ? "ok" : "ENULL");
+    if (dl == NULL) {
+      fi_api = "default_loop_retry";
+      dl = uv_default_loop();
+      fi_api = "-";
+      ev("default_loop_retry=%s", dl ? "ok" : "BROKEN");
+      if (dl == NULL) continue;
+    }
+    dl_fired = 0;
+    fi_api = "use";
+    rc = uv_timer_init(dl, &dt);
+    if (rc == 0) rc = uv_timer_start(&dt, dl_timer_cb, 1, 0);
+    if (rc == 0) uv_run(dl, UV_RUN_DEFAULT);
+    ev("timer_fired=%d", dl_fired);
+    uv_close((uv_handle_t*) &dt, NULL);
+    uv_run(dl, UV_RUN_DEFAULT);
+    rc = uv_loop_close(dl);
+    fi_api = "-";
+    ev("default_loop_close=%s", rc == 0 ? "0" : uv_err_name(rc));
+  }
+}
+
 /* ---- 2. timer / idle / prepare / check / async ------------------------------ */
 static uv_timer_t t1, t2; static uv_idle_t idl; static uv_prepare_t prep; static uv_check_t chk_;
 static uv_async_t asy; static int idle_n;
@@ -1038,7 +1072,7 @@ static void su_close(void) {
 }
 
 #define SCENARIOS \
-  {"loop", sc_loop}, {"basic", sc_basic}, {"tcp", sc_tcp}, {"tcp_big", sc_tcp_big}, {"pipe", sc_pipe}, \
+  {"loop", sc_loop}, {"default_loop", sc_default_loop}, {"basic", sc_basic}, {"tcp", sc_tcp}, {"tcp_big", sc_tcp_big}, {"pipe", sc_pipe}, \
   {"pipe_big", sc_pipe_big}, {"tcp_refused", sc_tcp_refused}, {"tcp_many", sc_tcp_many}, {"connect_fail", sc_connect_fail}, {"udp", sc_udp}, \
   {"fs_sync", sc_fs_sync}, {"fs_async", sc_fs_async}, {"fs_event", sc_fs_event}, {"fs_poll", sc_fs_poll}, \
   {"spawn", sc_spawn}, {"spawn_fail", sc_spawn_fail}, {"spawn_many", sc_spawn_many}, {"signal", sc_signal}, {"signal_close", sc_signal_close}, {"tcp_shed", sc_tcp_shed}, \
